@@ -477,6 +477,7 @@ class Dataset(AutoSerialize):
             crop_widths = (crop_widths[0],)  # Take first crop_width for single axis
         else:
             axes = tuple(int(a) for a in axes)
+        axes = tuple(a + self.ndim if a < 0 else a for a in axes)  # negative axes count from the end
 
         if len(crop_widths) != len(axes):
             raise ValueError("Length of crop_widths must match length of axes.")
@@ -558,6 +559,7 @@ class Dataset(AutoSerialize):
             axes = (int(axes),)
         else:
             axes = tuple(int(ax) for ax in axes)
+        axes = tuple(ax + self.ndim if ax < 0 else ax for ax in axes)  # negative axes count from the end
 
         if isinstance(bin_factors, numbers.Integral):
             bin_factors = (int(bin_factors),) * len(axes)
@@ -673,6 +675,7 @@ class Dataset(AutoSerialize):
             axes = (int(axes),)
         else:
             axes = tuple(int(a0) for a0 in axes)
+        axes = tuple(a0 + self.ndim if a0 < 0 else a0 for a0 in axes)  # negative axes count from the end
 
         if (out_shape is None) == (factors is None):
             raise ValueError("Specify exactly one of out_shape or factors.")
